@@ -17,8 +17,11 @@ PROP = {'drive': ['Shape'],
                        'C07_unguarded_panics'],
  'areas': [('shape', 70000, 1750000)],
  'rule': 'distinct case lines (lookup list, GDEF, lookup indices, history of 1-5 glyph sequences); '
-         'non-trivial = history with at least one non-empty sequence; every case is run on seven streams '
-         '(V apply, D text, D hist, D safe, D len, G stack, G guarded); tables that went through gtab.Read are '
+         'non-trivial = history with at least one non-empty sequence; every case is run on eight streams '
+         '(V apply, D text, D hist, D safe, D len, D input, G stack, G guarded); the inputs of apply/text/hist/safe '
+         'are built the way a caller may build them from one string: all Text slices cut from ONE rune array with '
+         'capacity up to its end (len/stack use separately allocated Text as sfnt.Layouter does), and D shape.input '
+         'checks that this array is unchanged after every call; tables that went through gtab.Read are '
          'also judged from their BYTES (D shape.readsafe: whatever the reader accepts consists of documented '
          'subtable types and is applied twice without a panic). Fixed families run in full on every run: '
          'trailing skipped glyphs (324), contextual nested in contextual (6 parent x 6 child formats x 3 action '
@@ -28,7 +31,9 @@ PROP = {'drive': ['Shape'],
          'with one flags word and different mark filtering sets over 3-call histories in both orders (48), '
          'subtables whose count field is smaller / larger than the coverage table next to it for GSUB 1.2 2.1 3.1 '
          '4.1, GPOS 1.2 2.1 3.1 4.1 (mark, base) 6.1 (mark1, mark2), contexts 1/2 and chained 1/2, read from bytes '
-         'and applied to all ordered pairs of the covered glyphs, last covered first (128)',
+         'and applied to all ordered pairs of the covered glyphs, last covered first (128), over-budget rules (63..130 actions, self-referential) whose nested GSUB 2.1 '
+         'insertions produce glyphs that start the same match again, run last (10; a non-terminating engine shows '
+         'as the time-out outcome on D shape.text)',
  'partial': ['C07_no_panic is proved in full for every lookup list in the shape the reader delivers, and that shape is '
              'proved for the images of the modelled subtable readers (C07_reader_delivers_shape, C07_no_panic_reader) '
              '(readerShapedLL = coverage indices inside the indexed arrays, context format 3 and chained context '
